@@ -115,6 +115,8 @@ def run_and_validate(rep, cases, label, timeout=2400, variant="gcc"):
     if res.get("ops_tlc") is not None:
         rep.add_tlc(res["ops_tlc"], "operator-level trace (TraceOps.tla) %s: %d events" % (label, res.get("ops_events", 0)))
         rep.cov["operator_events_validated"] = rep.cov.get("operator_events_validated", 0) + res.get("ops_events", 0)
+        if res.get("ops_drift"):
+            rep.cov.setdefault("operator_model_drift", []).append(res["ops_drift"])
     return res
 
 
@@ -152,22 +154,42 @@ def _progress(r):
     return prog
 
 
-def validate_ops(opath, label):
-    """operator view of a recording against spec/TraceOps.tla (programs of CycleOps.tla)"""
-    cfg = os.path.join(vlib.BUILD, "cfg", "trace_ops.cfg")
+def _trace_tlc(module, cfgname, cfgtext, opath, tag):
+    cfg = os.path.join(vlib.BUILD, "cfg", cfgname)
     os.makedirs(os.path.dirname(cfg), exist_ok=True)
-    with open(cfg, "w") as f:
-        f.write("SPECIFICATION TraceSpec\nCONSTANTS\n  LSet = {2}\n  NuSet = {0}\n  ItsSet = {0}\n  Defects = {}\n  EmitTerms = FALSE\n"
-                "CONSTRAINT Progress\nINVARIANTS NotAccepted Bounded\n")
-    r = vlib.tlc("TraceOps", cfg, workers=1, env={"TRACE": opath}, tag="ops" + label, timeout=1800, heap="8g", stack="512m")
+    open(cfg, "w").write(cfgtext)
+    r = vlib.tlc(module, cfg, workers=1, env={"TRACE": os.path.abspath(opath)}, tag=tag, timeout=3000, heap="8g", stack="512m")
     res = {"tlc": r, "progress": _progress(r), "trace_path": opath, "accepted": False, "violated": None}
     if r.rc == 12 and r.violation == "NotAccepted":
         res["accepted"] = True
     elif r.rc == 12:
         res["violated"] = r.violation
     elif r.rc != 0:
-        raise vlib.HarnessError("operator trace validation failed (rc=%s):\n%s" % (r.rc, r.out[-3000:]))
+        raise vlib.HarnessError("%s trace validation failed (rc=%s):\n%s" % (module, r.rc, r.out[-3000:]))
     return res
+
+
+def validate_ops(opath, label):
+    """operator view of a recording.  First the strict question (spec/TraceOps.tla): are the instructions between two markers
+    exactly the program of CycleOps.tla?  If so the properties follow (ProgramAgrees + CycleRefinesMG are model-checked).  If not,
+    the code was restructured or is wrong: spec/TraceSem.tla INTERPRETS the recorded instructions on the data-flow machine and
+    evaluates the properties themselves (iterate = MG/MGX/FMGStart term, residual term, rhs set-up, right-hand sides preserved).
+    Only a semantic rejection is a violation; a strict rejection that is semantically fine is reported as drift."""
+    res = _trace_tlc("TraceOps", "trace_ops.cfg",
+                     "SPECIFICATION TraceSpec\nCONSTANTS\n  LSet = {2}\n  NuSet = {0}\n  ItsSet = {0}\n  Defects = {}\n  EmitTerms = FALSE\n"
+                     "CONSTRAINT Progress\nINVARIANTS NotAccepted Bounded\n", opath, "ops" + label)
+    if res["accepted"]:
+        return res
+    sem = _trace_tlc("TraceSem", "trace_sem.cfg", "SPECIFICATION TraceSpec\nCONSTRAINT Progress\nINVARIANTS NotAccepted\n", opath, "sem" + label)
+    sem["strict_progress"] = res["progress"]
+    sem["strict_tlc"] = res["tlc"]
+    if sem["accepted"]:
+        lines = open(opath).read().splitlines()
+        p = res["progress"]
+        sem["drift"] = "the instructions recorded before line %d (%s) are not the program of CycleOps.tla, but their interpretation satisfies every property of TraceSem.tla" % (
+            p, lines[p - 1][:160] if 0 < p <= len(lines) else "?")
+        print("NOTE operator-level drift (not a violation): " + sem["drift"])
+    return sem
 
 
 def validate_trace(tpath, label):
@@ -195,6 +217,8 @@ def validate_trace(tpath, label):
         # the same recording, operator level: every cycle / start-up / residual evaluation / rhs set-up is the program of CycleOps.tla
         o = validate_ops(opath, label)
         res["ops_tlc"] = o["tlc"]
+        if o.get("drift"):
+            res["ops_drift"] = o["drift"]
         if not o["accepted"]:
             res.update(accepted=False, violated=o["violated"], progress=o["progress"], trace_path=opath, level="operators")
     return res
